@@ -719,6 +719,18 @@ type SymPtr struct {
 
 func (s *State) loadSym(p SymPtr, t types.Type) Value {
 	o := s.obj(p.ID)
+	if isStringType(t) {
+		cands := make([]Value, p.N)
+		for i := int32(0); i < p.N; i++ {
+			cands[i] = o.slots[p.Base+i*p.Stride]
+		}
+		if v, ok := s.selectByGroups(s.curWorker, p.Idx, cands); ok {
+			return v
+		}
+		// fall back: concretise the index
+		c := s.concretize(s.curWorker, p.Idx, "table index")
+		return o.slots[p.Base+int32(c)*p.Stride]
+	}
 	sorts := slotSorts(nil, t)
 	out := make(Agg, len(sorts))
 	for k := range sorts {
@@ -894,6 +906,9 @@ func scalarOrSmall(t types.Type) bool {
 	if _, ok := sortOfType(t); ok {
 		return true
 	}
+	if isStringType(t) {
+		return true // read through selectByGroups
+	}
 	if st, ok := t.Underlying().(*types.Struct); ok {
 		for i := 0; i < st.NumFields(); i++ {
 			if _, ok := sortOfType(st.Field(i).Type()); !ok {
@@ -945,6 +960,12 @@ func (s *State) execIndex(w *Worker, fr *Frame, in *ssa.Index) {
 			if srt, ok := sortOfType(xt.Elem()); ok && es == 1 {
 				s.setReg(fr, in, s.iteTreeW(idx.(*Term), a, srt))
 				return
+			}
+			if es == 1 {
+				if v, ok := s.selectByGroups(w, idx.(*Term), a); ok {
+					s.setReg(fr, in, v)
+					return
+				}
 			}
 			c = s.concretize(w, idx, "array index")
 		}
@@ -1348,4 +1369,59 @@ func decodeRune(s string) (rune, int) {
 		return r, n
 	}
 	return 0xFFFD, 0
+}
+
+// selectByGroups reads cands[idx] for a symbolic in-range idx when the candidates are concrete
+// non-scalar values (e.g. strings): one branch per DISTINCT value instead of one per index.
+func (s *State) selectByGroups(w *Worker, idx *Term, cands []Value) (Value, bool) {
+	type group struct {
+		val  Value
+		idxs []int
+	}
+	var groups []*group
+	for i, c := range cands {
+		str, ok := c.(string)
+		if !ok {
+			return nil, false
+		}
+		found := false
+		for _, g := range groups {
+			if g.val.(string) == str {
+				g.idxs = append(g.idxs, i)
+				found = true
+				break
+			}
+		}
+		if !found {
+			groups = append(groups, &group{val: str, idxs: []int{i}})
+		}
+	}
+	if len(groups) > 64 {
+		return nil, false
+	}
+	for gi, g := range groups {
+		if gi == len(groups)-1 {
+			return g.val, true
+		}
+		// membership as a disjunction of index ranges
+		var member Value = false
+		for k := 0; k < len(g.idxs); {
+			j := k
+			for j+1 < len(g.idxs) && g.idxs[j+1] == g.idxs[j]+1 {
+				j++
+			}
+			var inRange *Term
+			if idx.Sort == SInt {
+				inRange = mkAndB(mkCmp(OILe, mkIntC(int64(g.idxs[k])), idx), mkCmp(OILe, idx, mkIntC(int64(g.idxs[j]))))
+			} else {
+				inRange = mkAndB(mkCmp(OUle, mkBV(uint64(g.idxs[k]), idx.Sort), idx), mkCmp(OUle, idx, mkBV(uint64(g.idxs[j]), idx.Sort)))
+			}
+			member = orValue(member, inRange)
+			k = j + 1
+		}
+		if s.branch(w, member) {
+			return g.val, true
+		}
+	}
+	return nil, false
 }
